@@ -57,6 +57,7 @@ func finishCheck(prop, tier string, seed int64, spec PropSpec, results []jobResu
 
 	exit := 0
 	var problems []string
+	fallbackBy := map[string]int{}
 	nViol := 0
 	knownSeen := map[string]bool{}
 	funcs := map[string]bool{}
@@ -121,6 +122,10 @@ func finishCheck(prop, tier string, seed int64, spec PropSpec, results []jobResu
 		}
 		for p, n := range s.Problems {
 			problems = append(problems, fmt.Sprintf("job %s: %s (x%d)", j.Name, p, n))
+		}
+		for k, n := range s.Fallback {
+			fallbackBy[k] += n
+			fmt.Fprintf(os.Stderr, "[%s] job %s: %d queries left undecided by z3 4.8.12 were decided by %s\n", prop, j.Name, n, k)
 		}
 		if s.UnknownFeas > 0 {
 			// feasibility unknowns keep the branch (sound) but are reported
@@ -295,7 +300,7 @@ func finishCheck(prop, tier string, seed int64, spec PropSpec, results []jobResu
 		"init_log":                      eng.InitLog,
 		"outside_the_claim":             spec.Outside,
 		"solver":                        "z3 -in (one process per worker), QF_BV terms, push/pop per query",
-		"cross_solver":                  map[string]interface{}{"assertion_queries_sampled": crossN, "verdicts_agreeing": crossAgree, "by_solver": crossBy, "unknown_or_timeout": crossUnknown, "solvers": []string{"z3-new 5.1.0", "cvc5 1.0"}},
+		"cross_solver":                  map[string]interface{}{"assertion_queries_sampled": crossN, "verdicts_agreeing": crossAgree, "by_solver": crossBy, "unknown_or_timeout": crossUnknown, "solvers": []string{"z3-new 5.1.0", "cvc5 1.0"}, "queries_decided_by_fallback_solver": fallbackBy},
 	}
 	ev := map[string]interface{}{
 		"property_id": prop, "tier": tier, "seed": seed, "level": "model_checking", "wall_s": time.Since(t0).Seconds(),
